@@ -576,7 +576,14 @@ def gen_shipped(rnd, spec):
     if head == "LinearController" and rnd.random() < 0.5:
         hkw["rate"] = rnd.randint(1, 9)
     n = len(decos) + (1 if head else 0) + 1
-    return {"kind": "shipped", "head": head, "head_kw": hkw, "decorators": decos,
+    step = None
+    if head == "Stepwise":
+        # rules registered on the skeleton, extra (threshold, rule) pairs given positionally to s() and to a later call
+        thresholds = rnd.sample([1, 2, 5, 10, 50, 100, 1000], rnd.choice([0, 0, 1, 2, 3, 4]))
+        cut = sorted(rnd.randint(0, len(thresholds)) for _ in range(2))
+        step = {"registered": thresholds[:cut[0]], "in_s": thresholds[cut[0]:cut[1]], "in_call": thresholds[cut[1]:],
+                "late": rnd.random() < 0.3}
+    return {"kind": "shipped", "head": head, "head_kw": hkw, "decorators": decos, "step": step,
             "tail": rnd.choice(["instance", "uniform", "weighted"]), "tree": gen_tree(rnd, 0, n) if n > 1 else 0}
 
 
@@ -604,8 +611,26 @@ def run_shipped(case, result):
             items.append(classes[head].s(**case["head_kw"]))
             expect.append((classes[head], case["head_kw"]))
         elif head == "Stepwise":
-            items.append(stepwise(base_rule).s(**case["head_kw"]))
-            expect.append((Stepwise, case["head_kw"]))
+            step = case.get("step") or {"registered": [], "in_s": [], "in_call": [], "late": False}
+            rules = {t: (lambda pool, interval, t=t: t) for t in step["registered"] + step["in_s"] + step["in_call"]}
+            skeleton = stepwise(base_rule)
+            for t in step["registered"]:
+                skeleton.add(rules[t], supply=t)
+            tmpl = skeleton.s(*[(t, rules[t]) for t in step["in_s"]], **case["head_kw"])
+            if step["in_call"]:
+                tmpl = tmpl(*[(t, rules[t]) for t in step["in_call"]])
+            if step["late"]:
+                skeleton.add(lambda pool, interval: -1, supply=7777)  # the template is sealed: this is not part of it
+            items.append(tmpl)
+            bounds = sorted(rules)
+            lookup = {}
+            for low, high, rule in zip([0] + bounds, bounds + [float("inf")], [base_rule] + [rules[t] for t in bounds]):
+                lookup[low, high] = rule
+            expect.append((Stepwise, dict(case["head_kw"], **{"_selector._lookup": lookup})))
+            if rules:
+                result.count("shipped_stepwise_with_rules")
+            if step["in_s"] or step["in_call"]:
+                result.count("shipped_stepwise_with_positional_rule_pairs")
         elif head == "DemandSwitch":
             items.append(DemandSwitch.s(default_ctrl)(**case["head_kw"]))
             expect.append((DemandSwitch, case["head_kw"]))
@@ -646,6 +671,11 @@ def run_shipped(case, result):
             problems.append(("element %d is %r, expected %s" % (i, obj, cls.__name__), None))
             break
         for k, v in attrs.items():
+            if k == "_selector._lookup":
+                got = obj._selector._lookup
+                if set(got) != set(v) or any(got[r] is not v[r] for r in v):
+                    problems.append(("element %d (Stepwise) selects rules for %r, configured %r" % (i, sorted(got), sorted(v)), None))
+                continue
             got = obj.name if (cls is lg.Logger and k == "name") else getattr(obj, k)
             if got != v:
                 problems.append(("element %d (%s).%s is %r, configured %r" % (i, cls.__name__, k, got, v), None))
@@ -749,7 +779,7 @@ def run_shard(spec):
 def finish(total, tier):
     for name in ("chains_checked", "chains_rebuilt_from_reused_templates", "chains_tail_instance", "chains_tail_template", "chains_tail_curried",
                  "parenthesisations_exhaustive", "template_calls_checked", "calls_bindable", "calls_unbindable",
-                 "shipped_chains_checked", "long_chains_checked", "chains_with_a_falsy_pool", "eager_cases_with_short_lived_class", "eager_cases_with_plain_subclass", "eager_cases_with_plain_subclass_of_service_class"):
+                 "shipped_chains_checked", "shipped_stepwise_with_positional_rule_pairs", "long_chains_checked", "chains_with_a_falsy_pool", "eager_cases_with_short_lived_class", "eager_cases_with_plain_subclass", "eager_cases_with_plain_subclass_of_service_class"):
         if not total.counters.get(name) and not total.violations:
             total.inconc("monitor never observed: " + name)
 
